@@ -1,0 +1,70 @@
+//go:build verif
+
+package redisemu
+
+// Contracts for the deductive checks in /verif (comment-only file; the //@
+// lines are read by /verif/govc). Guarded by the build tag "verif": invisible
+// to normal builds and tests.
+
+//@ func extractBitfieldByte
+//@ prop C18 C13
+//@ inline
+
+//@ func extractBitfield
+//@ prop C18 C13
+//@ fresh sq in 0..(1<<40) witness start/8
+//@ fresh sb in 0..7 split witness start%8
+//@ fresh wd in 0..63 split witness end-start
+//@ subst start = 8*sq + sb
+//@ subst end = 8*sq + sb + wd
+//@ requires 0 <= start && start <= end && end-start <= 63 && end < (1<<43)
+//@ ensures field: uint64(value) == specField(bytes, start, end-start+1)
+//@ loop 1 unroll 8
+
+//@ func setBitfield
+//@ prop C18 C13
+//@ fresh sq in 0..(1<<40) witness start/8
+//@ fresh sb in 0..7 split witness start%8
+//@ fresh wd in 1..64 split witness width
+//@ subst start = 8*sq + sb
+//@ subst width = wd
+//@ requires 0 <= start && start < (1<<43) && 1 <= width && width <= 64
+//@ requires (start+width-1)/8 < len(bytes)
+//@ ensures bits: specSetOK(bytes, old(bytes), start, width, value)
+//@ ensures frame: forall j int :: (0 <= j && j < len(bytes) && (j < start/8 || j > (start+width-1)/8)) ==> bytes[j] == old(bytes)[j]
+//@ ensures len: len(bytes) == len(old(bytes))
+//@ loop 1 unroll 8
+
+//@ func isSignedSumOverflow
+//@ prop C18
+//@ fresh bw in 1..64 split witness bits
+//@ subst bits = bw
+//@ requires 1 <= bits && bits <= 64
+//@ requires specFitsSigned(a, bits)
+//@ ensures iff: result == specSignedSumOverflows(a, b, bits)
+
+//@ func isUnsignedOverflow
+//@ prop C18
+//@ fresh bw in 1..63 split witness bits
+//@ subst bits = bw
+//@ requires 1 <= bits && bits <= 63
+//@ requires value >= 0
+//@ ensures iff: result == !specFitsUnsigned(value, bits)
+
+//@ func signExtend
+//@ prop C18
+//@ fresh bw in 1..64 split witness bits
+//@ subst bits = bw
+//@ requires 1 <= bits && bits <= 64
+//@ requires bits == 64 || specFitsUnsigned(value, bits)
+//@ ensures value: result == specSignExtend(value, bits)
+
+//@ func saturateValue
+//@ prop C18
+//@ fresh bw in 1..64 split witness bits
+//@ subst bits = bw
+//@ requires 1 <= bits && bits <= 64 && (signed || bits <= 63)
+//@ ensures signed.neg: signed && value < 0 ==> (specFitsSigned(result, bits) && !specFitsSigned(result-1, bits) || (bits == 64 && result == -9223372036854775807-1))
+//@ ensures signed.pos: signed && value >= 0 ==> (specFitsSigned(result, bits) && (bits == 64 && result == 9223372036854775807 || bits < 64 && !specFitsSigned(result+1, bits)))
+//@ ensures unsigned.neg: !signed && value < 0 ==> result == 0
+//@ ensures unsigned.pos: !signed && value >= 0 ==> (specFitsUnsigned(result, bits) && !specFitsUnsigned(result+1, bits))
